@@ -44,15 +44,46 @@ STRENGTHENED = {
     "C20-3": "missed at first: every edit replaced the text by an unrelated one; edits that move the same text (blank lines, comments, indentation) added",
 }
 
-# second-round changes that are not caught by the check of their property, and why
+STRENGTHENED.update({
+    # third round
+    "C01-5": "missed at first: selects on a boolean only had arms named true / false; arms of other names before, between and after them added",
+    "C02-5": "missed at first: chains had at most 10 operators; runs of 40..160 operators of one precedence level added",
+    "C04-5": "missed at first: nothing counted the work of the AST walker; a third guarded hook commit ticks in Walker::walk_expression and functional operations nested in each other's callbacks (up to 31 deep) are generated",
+    "C04-6": "missed at first: no function repeated a parameter name; functions with repeated names as select arms and list items added",
+    "C06-6": "missed at first: named constraints were only written bare; `:: (name)` added as a fourth form",
+    "C07-5": "missed at first: record functions read at most two fields and were rarely called; they now read up to four and are called in the next statement",
+    "C08-5": "missed at first: list flags only held primitives; nested lists and tuples inside a list flag (first, middle) added",
+    "C09-5": "missed at first: no import sat in the argument of an expression format or was deferred through a function of a finished helper file; both positions added",
+    "C10-5": "missed at first: reserved words were only tried as let names; every reserved word is now also tried as the parameter of a called function and of a map callback (this also found that `env` was accepted there on the unchanged tree, repaired)",
+    "C10-6": "missed at first: scope templates were only evaluated with eval_string; they are now also built as files, and a template with a module nested in a module was added",
+    "C11-6": "missed at first: string literals were only evaluated from strings; 1 in 8 is now also read from a file on disk, and zero-width characters (U+FEFF, U+200B) joined the alphabet",
+    "C12-5": "missed at first: namespaces were only declared through ns; a default namespace declared as the attribute xmlns added (and modelled as a declaration)",
+    "C12-6": "missed at first: names came from Latin-1, Greek and CJK; Latin Extended and IPA letters added",
+    "C13-5": "missed at first: asserts only stood at the top level; asserts in the body of a module instantiated by a function applied through map added",
+    "C13-6": "missed at first: `ucg test` was never run with --no-strict; the first order of every case is now run once more with it",
+    "C15-5": "missed at first: raw files were at most 40 bytes; lengths around 1 KiB, 2 KiB, 4 KiB added",
+    "C16-6": "missed at first: no data file was shared between files; every project now has key.bin, which entry files include as b64 or b64urlsafe",
+    "C17-5": "missed at first: map / filter callbacks were inline and their lists literal; a list bound in its own statement mapped / filtered by a named one-argument function in another statement added (this also found that the unchanged tree reported faults in such functions at the use of the result, repaired)",
+    "C17-6": "missed at first: no fault was a missing field of a select result bound earlier; added",
+    "C18-5": "missed at first: only `ucg build` and the repl were driven; reads of an unset variable now also run under `ucg [--no-strict] test`",
+    "C18-6": "missed at first: the repl leg only looked for disclosed values; in strict mode the output must now also name the unset variable",
+    "C19-5": "missed at first: the text after the integer was ASCII; non-ASCII digits right after it added",
+    "C19-6": "missed at first: slice indices were ordered; reversed in-range pairs (empty result) added",
+    "C20-6": "missed at first: every didChange carried one content change; 1 in 4 now carries an earlier, superseded text before the current one",
+})
+
+# changes that are not caught by the check of their property, and why
 NOT_CAUGHT = {
+    "C02-6": "changes evaluation in the translator, not the parse tree C02 observes; caught by C01",
+    "C16-5": "needs a library in another directory than its importer that itself imports a sibling, two entry files in different directories, and a same-named file next to the first importer (or --no-strict); C16's projects have one sub directory and no same-named siblings. Not built for lack of time",
+    "C20-5": "needs a diamond of imports among files on disk, indexed at server start in a particular directory order, and a session that opens and closes the middle file; C20's workspace has three independent disk files. Not built for lack of time",
     "C02-4": "changes evaluation, not the parse tree C02 observes (`ucglib::parse::parse`); caught by C01 (compiled evaluation vs reference semantics)",
     "C17-3": "no longer manifests on the current tree: repair d250689 re-anchors the diagnostic for a call argument at the argument, which neutralises this change for its trigger (its demonstration passes on HEAD + patch); it was caught by C17 (`wrong-argument-type`) before that repair",
     "C18-3": "no longer manifests on the current tree: repair f3aa3d3 removed the checker defect (env inferred as a one-field tuple) that this change exposed; its demonstration passes on HEAD + patch. C18 now reads several variables per program and fails on the tree without f3aa3d3",
 }
 
 conf = {}
-for logname, offset in (("confirm.log", 0), ("confirm2.log", 2)):
+for logname, offset in (("confirm.log", 0), ("confirm2.log", 2), ("confirm3.log", 4)):
     lp = os.path.join(ROOT, "seeded", logname)
     if not os.path.exists(lp):
         continue
@@ -89,7 +120,7 @@ for d in sorted(glob.glob(os.path.join(ROOT, "seeded", "C*-*"))):
         "patch": "patch.diff (applies to %s)" % BASE + ("; patch.current.diff is the same edit ported onto the current /repo HEAD, whose repairs touched the same lines" if os.path.exists(os.path.join(d, "patch.current.diff")) else "; also applies to the current /repo HEAD"),
         "demonstration": demo[0] if demo else None,
         "confirmed": dict(
-            how="confirm_seed.sh / confirm_seed2.sh: scratch worktree of %s outside /repo and /verif; demonstration on the clean tree, patch applied, `cargo test --offline --no-fail-fast`, demonstration on the changed tree; worktree removed afterwards" % BASE,
+            how="confirm_seed.sh / confirm_seed2.sh / confirm_seed3.sh: scratch worktree of %s outside /repo and /verif; demonstration on the clean tree, patch applied, `cargo test --offline --no-fail-fast`, demonstration on the changed tree; worktree removed afterwards" % BASE,
             **conf.get(name, {}),
         ),
         "check_result": dict(
@@ -97,7 +128,7 @@ for d in sorted(glob.glob(os.path.join(ROOT, "seeded", "C*-*"))):
             **{k: res[k] for k in ("patch", "exit_code", "violations", "first_signature", "wall_seconds", "caught") if k in res},
         ),
     }
-    meta["round"] = 2 if BASE != "43edbb9" else 1
+    meta["round"] = {"43edbb9": 1, "7625054": 2}.get(BASE, 3)
     for k in ("caught_by_other_check",):
         if k in res:
             meta["check_result"][k] = res[k]
